@@ -711,3 +711,101 @@ def chain_cases(rng, all_pairs, ntriples, hist_per_chain, maxev=14):
         for _ in range(hist_per_chain):
             cases.append(chain_history(rng, ch, rng.randrange(2, maxev)))
     return cases
+
+
+# ---------------------------------------------------------------- forced thread schedules (mode conc)
+def conc_all_schedules(setup, ops, length):
+    n = len(ops)
+    cases = []
+    for seq in itertools.product(range(n), repeat=length):
+        cases.append("%s || %s || %s" % (setup, " | ".join(ops), " ".join(map(str, seq))))
+    return cases
+
+
+def conc_configs():
+    """(setup, thread ops, schedule length that covers every thread's micro-steps)"""
+    return [
+        ("clones=1 subs=1 pend=0 weaks=0 fixed=1", ["poll(0)", "set(5)"], 6),
+        ("clones=1 subs=1 pend=1 weaks=0 fixed=1", ["poll(0)", "set(5)"], 6),
+        ("clones=1 subs=1 pend=0 weaks=0 fixed=1", ["poll(0)", "drop"], 7),
+        ("clones=1 subs=2 pend=1 weaks=0 fixed=1", ["poll(1)", "drop"], 7),
+        ("clones=2 subs=1 pend=1 weaks=0 fixed=1", ["drop", "drop"], 6),
+        ("clones=3 subs=1 pend=1 weaks=0 fixed=1", ["drop", "drop"], 6),
+        ("clones=1 subs=1 pend=1 weaks=1 fixed=1", ["drop", "upgrade"], 5),
+        ("clones=2 subs=1 pend=1 weaks=1 fixed=1", ["drop", "upgrade"], 5),
+        ("clones=2 subs=1 pend=0 weaks=0 fixed=1", ["set(5)", "drop"], 5),
+        ("clones=1 subs=1 pend=0 weaks=0 fixed=1", ["set(5)", "set(6)"], 4),
+        ("clones=1 subs=1 pend=1 weaks=0 fixed=1", ["set(5)", "get"], 3),
+        ("clones=2 subs=1 pend=1 weaks=0 fixed=1", ["clone", "drop"], 4),
+    ]
+
+
+def conc_big_configs():
+    return [
+        ("clones=1 subs=2 pend=0 weaks=0 fixed=1", ["poll(0)", "poll(1)", "set(5)"], 9),
+        ("clones=2 subs=1 pend=1 weaks=1 fixed=1", ["drop", "drop", "upgrade"], 8),
+        ("clones=3 subs=1 pend=1 weaks=0 fixed=1", ["drop", "drop", "drop"], 9),
+        ("clones=2 subs=2 pend=1 weaks=0 fixed=1", ["poll(0)", "set(5)", "drop"], 9),
+        ("clones=2 subs=2 pend=1 weaks=1 fixed=1", ["poll(1)", "drop", "upgrade", "set(7)"], 11),
+        ("clones=3 subs=2 pend=1 weaks=1 fixed=1", ["drop", "set(7)", "poll(1)", "upgrade"], 11),
+        ("clones=2 subs=2 pend=2 weaks=0 fixed=1", ["set(5)", "set(6)", "get"], 5),
+    ]
+
+
+def conc_exhaustive():
+    cases = []
+    for setup, ops, ln in conc_configs():
+        cases += conc_all_schedules(setup, ops, ln)
+    return cases
+
+
+def conc_random(rng, n):
+    cases = []
+    cfgs = conc_big_configs()
+    for _ in range(n):
+        setup, ops, ln = rng.choice(cfgs)
+        seq = [rng.randrange(len(ops)) for _ in range(rng.randrange(0, ln + 1))]
+        cases.append("%s || %s || %s" % (setup, " | ".join(ops), " ".join(map(str, seq))))
+    return cases
+
+
+# ---------------------------------------------------------------- free-running threads (mode lin)
+def lin_cases(rng, n):
+    cases = []
+    for _ in range(n):
+        nt = rng.randrange(2, 5)
+        nsubs = rng.randrange(0, nt + 1)
+        owner = list(range(nsubs))          # subscriber k belongs to thread k
+        counter = [0]
+
+        def fresh():
+            counter[0] += 1
+            return counter[0] * 10 + rng.randrange(10)     # distinct `e` parts: all values differ by eq
+        sets_only = rng.random() < 0.4
+        progs = []
+        for t in range(nt):
+            ops = []
+            for _ in range(rng.randrange(2, 6)):
+                r = rng.random()
+                if sets_only:
+                    ops.append(rng.choice(("set(%d)" % fresh(), "get", "get")) if r < 0.8 or t not in owner
+                               else rng.choice(("next_now(%d)" % t, "poll(%d)" % t)))
+                    continue
+                if r < 0.3:
+                    ops.append("set(%d)" % fresh())
+                elif r < 0.4:
+                    ops.append("update(%d)" % fresh())
+                elif r < 0.48:
+                    ops.append("set_if_not_eq(%d)" % fresh())
+                elif r < 0.65:
+                    ops.append("get")
+                elif r < 0.8 and t in owner:
+                    ops.append(rng.choice(("next_now(%d)" % t, "poll(%d)" % t)))
+                elif r < 0.9:
+                    ops.append("rg")
+                else:
+                    ops.append("wg[%s]" % ";".join(rng.choice(("set(%d)", "update(%d)")) % fresh()
+                                                    for _ in range(rng.randrange(1, 3))))
+            progs.append(" ; ".join(ops))
+        cases.append("subs=%d || %s" % (nsubs, " | ".join(progs)))
+    return cases
